@@ -456,3 +456,24 @@ pub fn utf8_first_bytes(iv: (u32, u32)) -> Vec<u8> {
 pub fn bitmap_find_in(set: &[u8], hay: &[u8]) -> Option<usize> {
     ByteBitmap::new(set).find_in(hay)
 }
+
+/// One anchored attempt of the backtracking executor at byte offset `pos` (must be a char boundary).
+pub fn bt_attempt(
+    re: &Regex,
+    text: &str,
+    pos: usize,
+    ascii: bool,
+) -> Option<(usize, Vec<Option<core::ops::Range<usize>>>)> {
+    crate::classicalbacktrack::verif_attempt(re.verif_cr(), text, pos, ascii)
+}
+
+/// One anchored attempt of the PikeVM executor at byte offset `pos` (must be a char boundary).
+#[cfg(feature = "backend-pikevm")]
+pub fn pk_attempt(
+    re: &Regex,
+    text: &str,
+    pos: usize,
+    ascii: bool,
+) -> Option<(usize, Vec<Option<core::ops::Range<usize>>>)> {
+    crate::pikevm::verif_attempt(re.verif_cr(), text, pos, ascii)
+}
